@@ -224,12 +224,13 @@ PROPS['C16'] = dict(
                 "decoders on every run and the round-trip / rejection predicate is evaluated on the Go results. C16_observation_roundtrip proves "
                 "the observation envelope at byte level for ANY order of the proto map entries and removal ids (full uint64 timestamps via "
                 "the legacy/new field pair, duplicate removal id refused); the encoder model reproduces Go's Encode bytes exactly once told "
-                "the map order Go used (checked on every observation case). PARTIAL: the JSON-based retirement report and Mercury offchain "
-                "config have no Coq model (round-trip verdict computed on the implementation).",
+                "the map order Go used (checked on every observation case). C16_retirement_roundtrip proves the retirement report's JSON "
+                "transport at byte level (model = Go's json.Marshal bytes exactly: keys sorted as strings, nil map = null). PARTIAL: the "
+                "Mercury offchain config (JSON with a decimal string) has no Coq model (round-trip verdict computed on the implementation).",
     assumptions=["protobuf-go / encoding/json library behaviour as modelled or exercised", "byte strings are shorter than 2^64 bytes"],
     level_text="Coq theorems for stream-value, config and int192 codecs (round trip, accept-iff-valid, rejections) over byte-level models tied "
-               "to the Go codecs by differential testing, incl. the byte-level observation envelope for any proto-map order; the two "
-               "JSON-based codecs (retirement report, Mercury offchain config) are checked on the implementation only (partial).",
+               "to the Go codecs by differential testing, incl. the byte-level observation envelope for any proto-map order and the "
+               "retirement report's JSON form; the Mercury offchain config (JSON) is checked on the implementation only (partial).",
     level_note="Trusted: Coq kernel + vm_compute; hand-written byte-level models; harness. Axioms: none.",
 )
 
